@@ -343,13 +343,14 @@ def cases(tier, seed):
     q = tier == 'quick'
     # (a) step-level exploration, deviation bounded, over the configuration lattice around the default
     for cfg in configs(1 if q else 2):
-        out.append(dict(gran='mode', cfg=dict(cfg), bound=2 if q else 3, first=None))
+        out.append(dict(gran='mode', cfg=dict(cfg), bound=2, first=None))
     # (b) deeper bounds / full spaces on cheap base configurations, split by first choice
+    #     (measured: bound 4 on B6 = 9,000 executions / 2 minutes per first choice; bound 5 = more than 40,000: not attempted)
     B6 = dict(DEFAULT, line_search=False, maxNumIter=6)
-    deep = [(B6, 3, 6), (dict(DEFAULT, line_search=False), 2, 4), (dict(DEFAULT), 2, 4),
-            (dict(B6, minInc=0.02), 3, 7), (dict(B6, minInc=0.1, initialInc=0.7), 99, 99),
-            (dict(B6, minInc=0.02, modified_NR=False), 3, 6), (dict(DEFAULT, minInc=0.1, max_iter_line_search=2, maxNumIter=6), 4, 99),
-            (dict(B6, initialInc=0.9995), 3, 5), (dict(B6, maxInc=0.2, minInc=0.02), 2, 4), (dict(B6, initialInc=1.0), 3, 6)]
+    deep = [(B6, 3, 4), (dict(DEFAULT, line_search=False), 2, 3), (dict(DEFAULT), 2, 3),
+            (dict(B6, minInc=0.02), 3, 4), (dict(B6, minInc=0.1, initialInc=0.7), 99, 99),
+            (dict(B6, minInc=0.02, modified_NR=False), 3, 4), (dict(DEFAULT, minInc=0.1, max_iter_line_search=2, maxNumIter=6), 4, 5),
+            (dict(B6, initialInc=0.9995), 3, 5), (dict(B6, maxInc=0.2, minInc=0.02), 2, 3), (dict(B6, initialInc=1.0), 3, 4)]
     for cfg, bq, bt in deep:
         for first in range(len(MODES)):
             out.append(dict(gran='mode', cfg=cfg, bound=bq if q else bt, first=first))
